@@ -4,8 +4,10 @@
    With cancellations (x<id>), which the refinement does not cover but the erasure theorem (Props/C01.v,
    c01_exec_cancel_session) reduces to the run without them: "in+x" when the label list is in that theorem's domain
    (cancel_ok: no h, no a, distinct request ids) and the list with every x replaced by t0 is in the fragment;
-   "x-ok:<label>" when only the erasure theorem applies (<label> is the first one outside the fragment). *)
-From MPD Require Import Bytes Tables Show ServerModel DriverLoop LoopRefine LoopCancel.
+   "x-ok:<label>" when only the erasure theorem applies (<label> is the first one outside the fragment).
+   With the event listener dropped (Z): the listener theorem (Props/C05.v c05_listener_erasure) reduces the run to the one with
+   Z replaced by t0: "in+Z", "in+x+Z", or "Z-ok:<label>". *)
+From MPD Require Import Bytes Tables Show ServerModel DriverLoop LoopRefine LoopCancel LoopMute.
 Open Scope N_scope.
 
 Fixpoint first_bad (cf : sconf) (labs : list bytes) : option bytes :=
@@ -28,10 +30,15 @@ Definition run_loopfrag (args : list bytes) : bytes :=
       else match first_bad (parse_conf conf) labs with
            | None => b "in"
            | Some l =>
-             if existsb is_cancel labs && cancel_ok [] labs then
-               match first_bad (parse_conf conf) (map erase_label labs) with
-               | None => b "in+x"
-               | Some l' => b "x-ok:" ++ l'
+             (* the listener theorem (Z -> t0) first, then the cancellation theorem (x -> t0) on what remains *)
+             let hasz := existsb is_drop labs && mute_ok labs in
+             let labs1 := if hasz then map mute_label labs else labs in
+             let hasx := existsb is_cancel labs1 && cancel_ok [] labs1 in
+             let labs2 := if hasx then map erase_label labs1 else labs1 in
+             if hasz || hasx then
+               match first_bad (parse_conf conf) labs2 with
+               | None => b "in" ++ (if hasx then b "+x" else []) ++ (if hasz then b "+Z" else [])
+               | Some l' => (if hasx then b "x-ok:" else b "Z-ok:") ++ l'
                end
              else b "out:" ++ l
            end
